@@ -493,6 +493,60 @@ fn stress(pr: &PropRun) -> LaneReport {
             break;
         }
     }
+    // second stress: threads publish interleaved ascending absolute values back to back; after each call the
+    // counter must be at least what that thread just published, each thread's own reads never decrease, and the
+    // final value is at least the largest value given
+    let rounds = pr.cfg.cases(6, 300);
+    for round in 0..rounds {
+        if !rep.violations.is_empty() {
+            break;
+        }
+        let a = Arc::new(AtomicU64::new(0));
+        let c = Counter::from_arc(a.clone());
+        let nthreads = 4 + (round as usize % 5);
+        let per = 150_000u64;
+        let go = AtomicBool::new(false);
+        let bad: Mutex<Option<String>> = Mutex::new(None);
+        std::thread::scope(|s| {
+            for t in 0..nthreads as u64 {
+                let (c, a, go, bad) = (c.clone(), &a, &go, &bad);
+                s.spawn(move || {
+                    while !go.load(Ordering::Acquire) {
+                        std::hint::spin_loop();
+                    }
+                    let mut last_read = 0u64;
+                    for i in 0..per {
+                        let v = i * nthreads as u64 + t + 1;
+                        c.absolute(v);
+                        let r = a.load(Ordering::SeqCst);
+                        if r < v {
+                            *bad.lock().unwrap() = Some(format!("after absolute({}) the counter read {}", v, r));
+                            return;
+                        }
+                        if r < last_read {
+                            *bad.lock().unwrap() = Some(format!("counter went backwards: read {} and later {}", last_read, r));
+                            return;
+                        }
+                        last_read = r;
+                    }
+                });
+            }
+            go.store(true, Ordering::Release);
+        });
+        let max = (per - 1) * nthreads as u64 + nthreads as u64;
+        let fin = a.load(Ordering::SeqCst);
+        let mut ctx = Ctx::default();
+        ctx.fingerprint = Some(10_000 + round);
+        ctx.nontrivial("threads-hammering-absolute");
+        if round == 0 {
+            ctx.desc = Some(format!("{} threads x {} interleaved ascending absolute() calls on clones of one counter", nthreads, per));
+        }
+        rep.account(ctx);
+        let problem = bad.into_inner().unwrap().or(if fin < max { Some(format!("counter ended at {} below the largest absolute value {}", fin, max)) } else { None });
+        if let Some(msg) = problem {
+            rep.violations.push(Violation { lane: "stress-16-threads".into(), sig: "stress-absolute-not-monotone".into(), msg, bytes: vec![], sched: vec![], decoded: format!("absolute hammer round {} (free-running)", round) });
+        }
+    }
     rep.wall_s = start.elapsed().as_secs_f64();
     rep
 }
